@@ -34,10 +34,12 @@ static model::Loc snapped_location(Src& s, const enc::PbfPlan& p) {
     return l;
 }
 
-// o5m: strings whose combined length is close to the 250-character table limit are avoided (descriptions differ in how they count)
-static void avoid_o5m_limit(std::string& a, const std::string& b, size_t extra) {
-    size_t n = a.size() + b.size() + extra;
-    if (n >= 244 && n <= 258) a.append(262 - n, 'x');
+// o5m: a string pair (key/value, uid/user) is stored in the reference table iff both strings together have at most 250
+// characters; that boundary is generated on purpose (see below). For the single string of a relation member (type character +
+// role) the descriptions differ by one in how they count, so only there the lengths next to the limit are avoided.
+static void avoid_o5m_role_limit(std::string& role) {
+    size_t n = role.size() + 1;
+    if (n >= 249 && n <= 253) role.append(256 - n, 'x');
 }
 
 static Obj gen_object(Src& s, int type, const Data& d, size_t max_list) {
@@ -62,14 +64,22 @@ static Obj gen_object(Src& s, int type, const Data& d, size_t max_list) {
         }
         if (x.uid == 0) x.uid = 1 + static_cast<uint32_t>(s.draw(1000));
     }
-    {
+    for (auto& m : x.members) avoid_o5m_role_limit(m.role);
+    if (s.chance(1, 10)) {
+        // a tag whose key and value together have a length right at the o5m table limit (ASCII, so characters = bytes); the same
+        // tag is often repeated in later objects, which makes the encoder use a back-reference to it (or not, beyond the limit)
+        static const size_t totals[] = {248, 249, 250, 251, 252, 253};
+        size_t total = totals[s.draw(6)];
+        size_t klen = 1 + s.draw(total - 1);
+        x.tags.push_back(model::Tag{std::string(klen, 'k'), std::string(total - klen, static_cast<char>('a' + s.draw(3)))});
+    }
+    if (x.uid != 0 && s.chance(1, 25)) {
         std::string uid;
         enc::pb::varint(uid, x.uid);
-        avoid_o5m_limit(x.user, uid, 0);
-        if (x.user.size() > 1024) x.user.resize(1024);
+        static const size_t totals[] = {249, 250, 251, 252};
+        size_t total = totals[s.draw(4)];
+        if (total > uid.size()) x.user = std::string(total - uid.size(), 'u');
     }
-    for (auto& t : x.tags) avoid_o5m_limit(t.v, t.k, 0);
-    for (auto& m : x.members) avoid_o5m_limit(m.role, "", 1);
     if (d.history && s.chance(1, 4)) {
         x.visible = false;
         x.loc = model::Loc{};
@@ -114,6 +124,23 @@ static Data gen_data(Src& s) {
             x.tags.push_back(model::Tag{"k" + std::to_string(i % 7), "v" + std::to_string(i)});
         }
         d.objs.push_back(std::move(x));
+    }
+    if (!table_wrap && d.objs.size() >= 2 && s.chance(1, 3)) {
+        // the same boundary-length tag on several objects: the second and later occurrences are back-references in o5m
+        static const size_t totals[] = {249, 250, 251};
+        size_t total = totals[s.draw(3)];
+        size_t klen = 1 + s.draw(total - 1);
+        model::Tag t{std::string(klen, 'K'), std::string(total - klen, 'V')};
+        size_t k = 2 + s.draw(3);
+        for (size_t i = 0; i < k; ++i) {
+            Obj& x = d.objs[s.draw(d.objs.size())];
+            if (x.visible) x.tags.insert(x.tags.begin() + static_cast<std::ptrdiff_t>(s.draw(x.tags.size() + 1)), t);
+        }
+        // and an ordinary short tag after it that is referenced too (a table that is off by one entry shows there)
+        model::Tag u{"highway", "residential"};
+        for (auto& x : d.objs)
+            if (x.visible && s.boolean()) x.tags.push_back(u);
+        vp::count("o5m_table_limit_tag_repeated");
     }
     if (sorted) std::stable_sort(d.objs.begin(), d.objs.end(), [](const Obj& a, const Obj& b) { return a.type < b.type; });
     if (table_wrap) vp::count("o5m_table_wrap_case");
